@@ -777,7 +777,7 @@ static int r_livelock(void)
 {
 	/* called after every 2000 loop iterations during which virtual time did not advance */
 	static int64_t inst = -1, base_moved, last_moved;
-	int64_t moved = 0, allow = 1 << 20;
+	int64_t moved = 0, allow = 1 << 16;
 	int i, d;
 	for (i = 0; i < nRS; i++) {
 		moved += RS[i].moved[0] + RS[i].moved[1];
